@@ -91,6 +91,7 @@
 From CacheV Require Import Base SpecMap TableModel TabExec Exec XMachineS XExec XExecS Lin.
 From CacheV.proofs Require Import C11_lists C11_table C11_idx X_maps XS_inv XS_lock XS_own XS_count XS_inst XS_cells XS_vis XS_abs XS_cinst XS_resize XS_rinst XS_read XS_rdinst XS_loadhit XS_lhinst XS_fn XS_size XS_loadmiss XS_lminst XS_range.
 From CacheV.proofs Require X_linpoints LinGen XS_stale XS_linpoints XS_linearizable XS_linpoints2 XS_linearizable2.
+From CacheV.proofs Require XS_term.
 From Coq Require Import NArith.
 
 Theorem C03_sequential :
@@ -536,3 +537,42 @@ Print Assumptions C03_lin_stale_table_nonvacuous.
 Print Assumptions C03_lin_overtaken_store_nonvacuous.
 Print Assumptions C03_lin_overtaken_decision_nonvacuous.
 Print Assumptions C03_lin_range_visitor_nonvacuous.
+
+(* ---------------- termination (XMachineS) ---------------- *)
+
+Theorem C03_solo_completion :
+  forall (K V : Type) (eqd : forall a b : K, {a = b} + {a <> b}) hash idx tophash nslots seeds g sh nstripes minlen grow_only,
+    XS_term.sthyps hash idx tophash nslots nstripes minlen -> XS_term.ghyp g -> forall len0 todo sched t o rest, (0 < len0)%nat ->
+    let sr := @srun K V eqd hash idx tophash nslots seeds g sh nstripes minlen grow_only in
+    let s := fst (sr (sinit nslots seeds nstripes len0 todo) sched) in
+    XS_term.calm hash idx nslots nstripes s t -> h_pc s t = QIdle -> h_todo s t = o :: rest ->
+    exists m,
+      let r := sr s (repeat t m) in
+      h_pc (fst r) t = QIdle /\ h_todo (fst r) t = rest
+      /\ In (SInv t o) (snd r) /\ (exists res, In (SRes t res) (snd r))
+      /\ XS_term.calm hash idx nslots nstripes (fst r) t
+      /\ (forall u, u <> t -> h_pc (fst r) u = h_pc s u /\ h_todo (fst r) u = h_todo s u /\ h_frame (fst r) u = h_frame s u)
+      /\ (XS_term.nsub t (snd r) <= XS_term.vbound nslots nstripes s o)%nat.
+Proof. exact @XS_term.s_solo_call_g_proof. Qed.
+Print Assumptions C03_solo_completion.
+
+Theorem C03_can_always_finish :
+  forall (K V : Type) (eqd : forall a b : K, {a = b} + {a <> b}) hash idx tophash nslots seeds g sh nstripes minlen grow_only,
+    XS_term.sthyps hash idx tophash nslots nstripes minlen -> XS_term.ghyp g -> forall len0 todo sched ths, (0 < len0)%nat ->
+    (forall u, In u sched -> In u ths) ->
+    let sr := @srun K V eqd hash idx tophash nslots seeds g sh nstripes minlen grow_only in
+    let s := fst (sr (sinit nslots seeds nstripes len0 todo) sched) in
+    exists cont, let r := sr s cont in
+      (forall t, In t ths -> h_pc (fst r) t = QIdle /\ h_todo (fst r) t = [])
+      /\ (forall u, ~ In u ths -> h_pc (fst r) u = QStart /\ h_todo (fst r) u = h_todo s u).
+Proof. exact @XS_term.s_can_always_finish. Qed.
+Print Assumptions C03_can_always_finish.
+
+Definition C03_solo_nonvacuous := XS_term.s_solo_nonvacuous.
+Definition C03_nested_nonvacuous := XS_term.s_nested_nonvacuous.
+Definition C03_can_finish_nonvacuous := XS_term.s_can_finish_nonvacuous.
+Definition C03_growth_hypothesis_needed := XS_term.s_solo_writer_grows_forever.
+Print Assumptions C03_solo_nonvacuous.
+Print Assumptions C03_nested_nonvacuous.
+Print Assumptions C03_can_finish_nonvacuous.
+Print Assumptions C03_growth_hypothesis_needed.
